@@ -231,7 +231,7 @@ def check_variant(chk, v):
     while srcx[0] == "cast":
         srcx = srcx[2]
     chk.require(srcx == sym.idx(warr, jv) and d["lv"] == sym.idx(sym.fld(sym.idx(sym.sym(res), pv), "coefs"), jv)
-                and (pl["lo"], pl["cmp"], pl["hi"]) == (ZERO, "<", L) and jl["lo"] == ZERO and R(jl["hi"]) == N,
+                and summ.visits(pl, ZERO, L) and jl["lo"] == ZERO and R(jl["hi"]) == N,
                 "R5", "every coefficient position j in [0,N) of every digit p in [0,l) is computed from input coefficient j alone [%s path]" % via,
                 where="%s:%s" % (f.file, d["line"]), ok="result[p].coefs[j] from %s[j], p < l, j < N" % ("sample->coefsT" if work["kind"] == "in_place" else "the working copy of sample->coefsT"),
                 bad="dst %s from %s over p in [%s,%s), j in [%s,%s)" % (sym.show(d["lv"]), sym.show(srcx), sym.show(pl["lo"]), sym.show(pl["hi"]),
@@ -260,7 +260,7 @@ def check_variant(chk, v):
         want = sym.subst(shift, {pv: al["var"], B: cn["Bgbit"]})
         if e_acc != want:
             problems.append("offset accumulates 2^(%s), field p sits at 2^(%s)" % (sym.show(e_acc) if e_acc else sym.show(acc[0]["val"]), sym.show(want)))
-        if (al["lo"], al["cmp"], al["hi"]) != (ZERO, "<", cn["l"]):
+        if not summ.visits(al, ZERO, cn["l"]):
             problems.append("offset accumulates over [%s,%s), not [0,l)" % (sym.show(al["lo"]), sym.show(al["hi"])))
         ov = base[0]["val"]
         fac = set()
@@ -347,7 +347,7 @@ def check_variant(chk, v):
         hl = hs[0]["loops"][0]
         eh = bits.pow2_exp(hs[0]["val"])
         want = sym.subst(shift, {pv: hl["var"], B: cn["Bgbit"]})
-        okh = eh == want and (hl["lo"], hl["cmp"], hl["hi"]) == (ZERO, "<", cn["l"]) and hs[0]["lv"][2] == hl["var"]
+        okh = eh == want and summ.visits(hl, ZERO, cn["l"]) and hs[0]["lv"][2] == hl["var"]
         det = "h[i] = 2^(%s) for i in [%s,%s)" % (sym.show(eh), sym.show(hl["lo"]), sym.show(hl["hi"]))
     chk.require(okh, "R3", "gadget h[p] equals the weight 2^(32-(p+1)Bgbit) of digit field p", where=ctor.where, ok=det, bad=det, variant=vn)
     # derived constants
